@@ -1862,6 +1862,27 @@ class Engine:
                 if v[0] == "call" and v[1] == ("ext", "struct.Struct") and len(v[2]) == 1 and is_const(v[2][0]) \
                         and isinstance(v[2][0][1], str) and not v[3]:
                     return v
+                if isinstance(node, ast.Call) and dotted(node.func) is not None and not any(isinstance(a, ast.Starred) for a in node.args):
+                    # NAME = helper(<constants>): a record built once at import time by a function of the package that
+                    # computes its value from its arguments alone (one path, no effects)
+                    gf = self.prog.resolve_global(mi, dotted(node.func))
+                    callee = self.prog.functions.get(gf[1]) if gf and gf[0] == "func" else None
+                    if callee is not None and not callee.is_async and not _has_yield(callee):
+                        av = tuple(self._eval_in_module(a, mi) for a in node.args)
+                        kv = tuple((k.arg, self._eval_in_module(k.value, mi)) for k in node.keywords if k.arg)
+                        if all(x[0] != "unknown" for x in av + tuple(x for _, x in kv)) and len(kv) == len(node.keywords):
+                            try:
+                                sub = Engine(self.prog, self.policy)
+                                ps = sub.paths(callee, args=av, kwargs=kv, depth=1)
+                            except AnalysisError:
+                                ps = []
+                            if len(ps) == 1 and ps[0].outcome[0] == "return" and not any(
+                                    e.kind in ("store", "await") or (e.kind == "call" and e.sched) for e in ps[0].events):
+                                self._nt_terms.update(sub._nt_terms)
+                                return ps[0].outcome[1]
+                if v[0] in ("set", "tuple") and isinstance(node, ast.Call) and dotted(node.func) in ("frozenset", "tuple") \
+                        and all(is_const(x) for x in v[1]):
+                    return v  # an immutable collection of constants computed at import time
                 if v[0] == "cls" and isinstance(node, (ast.Attribute, ast.Name)):
                     return v  # a private alias of a class
                 if v[0] == "call" and v[1][0] == "ext" and v[1][1] in ("operator.attrgetter", "operator.itemgetter") \
@@ -2363,6 +2384,16 @@ class Engine:
                     and args[1][1].isidentifier():
                 # getattr(x, "name") is x.name
                 return self._load_attr(args[0], args[1][1], node, s, fi, depth, ch)
+            if name in ("bytes", "bytearray") and len(args) == 1 and not kwargs and args[0][0] in ("tuple", "list") and args[0][1] \
+                    and all(is_const(x) and isinstance(x[1], int) and not isinstance(x[1], bool) and 0 <= int(x[1]) <= 255 for x in args[0][1]) \
+                    and getattr(fi, "name", "") == "<module>":
+                return const(bytes(int(x[1]) for x in args[0][1]))  # (import-time constants only: function bodies keep the term)
+            if name == "struct.pack" and args and not kwargs and all(is_const(x) for x in args) and isinstance(args[0][1], str) \
+                    and getattr(fi, "name", "") == "<module>":
+                try:
+                    return const(_struct.pack(args[0][1], *[int(x[1]) if isinstance(x[1], int) else x[1] for x in args[1:]]))
+                except (_struct.error, TypeError, ValueError):
+                    pass
             if name == "bool" and len(args) == 1:
                 tv = self._decide(args[0], s)
                 if tv is not None:
